@@ -29,9 +29,9 @@ T = {
  'C08': ('resolved sample_momentum normal forms + polynomial identity of the Crank-Nicolson coefficients + operator-word square-root obligations shared from C10',
          'sample_momentum = metric.sqrt @ standard normal with the same metric object as the kinetic energy; constrained classes project; triangular factor objects used by sqrt and by inv/products are the same array; a^2 + b^2 == 1 for partial refresh; coefficient range guard and branch semantics; S S^T = M for every class whose sqrt a momentum draw can use, pure parity of the sign-carrying low-rank sqrt; stale constructor-time coefficients',
          'agreement with LAPACK numerics is not decided'),
- 'C09': ('effect-set vs declared-dependency comparison under the C3 MRO; protocol shape checks on ChainState and the cache decorators; may-alias analysis of cached values',
+ 'C09': ('effect-set vs declared-dependency comparison under the C3 MRO; abstract interpretation of mici/states.py over a finite token domain (scenario runs of the decorators; closure of the ChainState protocol over calls / assignments / copies / pickle round trips against a reference memo); protocol shape checks; may-alias analysis of cached values',
          'every code-visible way a cached value can go stale: missing dependency declarations (56 class x method pairs), aux tables, cache sharing on copy, missed invalidation, pickle table mismatch, in-place mutation behind __setattr__; decorator protocol (key identity, registration, invalidation marker, no cross-call state); pickled dependency table keeps every key the pickled cache keeps; no cached value is (a view of) a state variable array; no in-place update of a value returned by a cached method',
-         'user functions assumed pure functions of pos; histories are not executed'),
+         'user functions assumed pure functions of pos; the protocol closure ranges over two live state objects, two system objects and the token domain (no array values)'),
  'C10': ('operator-word algebra over matrix-class members + sign-parity typing',
          'sibling representations (_left/_right multiply, array, transpose) of each class denote the same operator word; parity of every member under the sign symmetry of the sign-carrying families; inverse/sqrt/scalar-multiply identities inside the rewrite system; block / product classes for n = 2, 3 (4) symbolic components; LU-cache typestate; forwarded capacitance caches; LAPACK solves by contract (lu_solve, cho_solve with a case split on the unseen lower flag); every member must evaluate (fail closed) except the Schur-based low-rank sqrt',
          'agreement with LAPACK numerics, conditioning, eigendecompositions not decided'),
@@ -56,7 +56,7 @@ T = {
  'C17': ('exact symbolic execution of the online updates (rational polynomials) + case analysis of initialize + transition table of the initial search + post-condition rules on finalize',
          'convex-combination shape of every online update, count-weighted pooled mean / Chan merge terms, documented weights, .inv of estimate/(n-1), regularisation weights, momentum refresh after metric change, n<2 guard, reducer use; recursions start at their documented initial values and an explicit regularisation target is honoured for every value; the initial step-size search halves / doubles / returns as a bracketing search must in every (first?, NaN / <= log 2 / > log 2, direction) case',
          'floating-point stability not decided'),
- 'C18': ('declared-vs-read comparison (converse direction) + protocol shape checks',
+ 'C18': ('declared-vs-read comparison (converse direction) + abstract interpretation of mici/states.py over a finite token domain (decorator scenario runs; ChainState protocol closure against a reference memo: no value computed before is evaluated again) + protocol shape checks',
          'no over-broad declaration on methods that evaluate user functions, every user-function call is memoised, aux tables match differential-operator return conventions, cache forwarded on copy, only dependants cleared, wrapped method evaluated only on a miss, position-only flow writes only mom; per-variable dependency sets at every construction site; wrappers keep no state between calls; chain states only created from user input or by copy()',
          'user functions calling each other are out of view'),
  'C19': ('effect analysis of matrices.py + defining-attribute vs eq/hash attribute comparison',
